@@ -12,18 +12,18 @@ Open Scope Z_scope.
 
 Section Run.
 Variable p : program.
-Variables tord bord : state -> node -> list node -> list node.
+Variables tord bord pord : state -> node -> list node -> list node.
 Variable rk : node -> nat.
 Variable sB : state.
 Hypothesis Hrk : forall n e d, alookup p n = Some e -> In d (expr_reads e) -> (rk d < rk n)%nat.
 Hypothesis Hproj : forall n e d, alookup p n = Some e -> nkind n = KProjection -> In d (expr_reads e) ->
   is_fw_or_proj (nkind d) = true.
 
-Notation mquery := (query_for_o p None tord bord).
-Notation mexecute := (execute_o p None tord bord).
-Notation meval := (eval_o p None tord bord).
-Notation mrepair := (repair_o p None tord bord).
-Notation mbackward := (backward_o p None tord bord).
+Notation mquery := (query_for_o p None tord bord pord).
+Notation mexecute := (execute_o p None tord bord pord).
+Notation meval := (eval_o p None tord bord pord).
+Notation mrepair := (repair_o p None tord bord pord).
+Notation mbackward := (backward_o p None tord bord pord).
 
 Definition is_cq (c : caller) : bool := match c with CQuery _ _ _ _ => true | _ => false end.
 
@@ -159,12 +159,12 @@ Definition msound_backward (f : nat) : Prop :=
     mbackward f [] n s = Ok s' ->
     MInv p rk sB X inp s' /\ sverified s' n /\ has_pending s' n = false.
 
-Lemma mono_q : forall f, mmono_query p tord bord f.
-Proof. intro f. apply (mmono_all p tord bord f). Qed.
+Lemma mono_q : forall f, mmono_query p tord bord pord f.
+Proof. intro f. apply (mmono_all p tord bord pord f). Qed.
 
 (** * the TFC repair of a root *)
 Lemma msound_tfc : forall f inp, msound_query f ->
-  forall ts s s', MInv p rk sB [] inp s -> mtfc p tord bord f [] ts s = Ok s' ->
+  forall ts s s', MInv p rk sB [] inp s -> mtfc p tord bord pord f [] ts s = Ok s' ->
     MInv p rk sB [] inp s' /\ forall t, In t ts -> sverified s' t.
 Proof.
   intros f inp IHq. induction ts as [|t r IH]; intros s s' HI H; cbn [mtfc] in H.
@@ -183,7 +183,7 @@ Qed.
 (** * the backward projections of a node *)
 Lemma msound_bp : forall f inp X, msound_query f ->
   forall ps s s', MInv p rk sB X inp s -> (forall q, In q ps -> nkind q = KProjection) ->
-    mbp p tord bord f [] ps s = Ok s' ->
+    mbp p tord bord pord f [] ps s = Ok s' ->
     MInv p rk sB X inp s' /\ MonoR [] s s' /\ forall q, In q ps -> sverified s' q.
 Proof.
   intros f inp X IHq. induction ps as [|q r IH]; intros s s' HI Hk H; cbn [mbp] in H.
@@ -333,7 +333,7 @@ Lemma msound_walk : forall f inp X n stk pd i, msound_query f -> StkR p stk n ->
     (forall x, In x cs -> In x (all_callees (i_fwd i))) ->
     ms = [] -> fr_scc fr = false -> fr_tfc fr = [] ->
     MWalkInv s i cs rtfc cleaned ->
-    mwalk p tord bord f n stk pd i cs rtfc cleaned fr ms s = Ok (d, fr', ms', s1) ->
+    mwalk p tord bord pord f n stk pd i cs rtfc cleaned fr ms s = Ok (d, fr', ms', s1) ->
     MInv p rk sB X inp s1 /\ MKeeps s s1 /\ ms' = [] /\ fr_scc fr' = false /\ fr_tfc fr' = [] /\
     match d with
     | DRecompute => MStaleV s1 n
@@ -374,7 +374,7 @@ Proof.
                 (nkind cal = KInput \/ sverified s0 cal) ->
                 fr_scc fr0 = false -> fr_tfc fr0 = [] ->
                 (if negb (i_value ci =? ov) then Ok (DRecompute, fr0, [] ++ [], s0)
-                 else mwalk p tord bord f n stk pd i r
+                 else mwalk p tord bord pord f n stk pd i r
                         (rtfc || (negb (kind_eqb (nkind cal) KFirewall) && negb (nset_eqb (i_tfc ci) otfc)))
                         (if dt then cleaned ++ [cal] else cleaned) fr0 ([] ++ []) s0) = Ok (d, fr', ms', s1) ->
                 MInv p rk sB X inp s1 /\ MKeeps s s1 /\ ms' = [] /\ fr_scc fr' = false /\ fr_tfc fr' = [] /\
@@ -434,14 +434,14 @@ Proof.
         -- apply MonoR_refl.
         -- intro K. rewrite Ek in K. discriminate.
         -- intros _. eapply input_Solid; eauto.
-      * match type of H with context [query_for_o p None tord bord f ?a ?b ?c ?d0 ?e] =>
-          destruct (query_for_o p None tord bord f a b c d0 e) as [[[[o fr1] m1] s']| | |] eqn:Eq; try discriminate end.
+      * match type of H with context [query_for_o p None tord bord pord f ?a ?b ?c ?d0 ?e] =>
+          destruct (query_for_o p None tord bord pord f a b c d0 e) as [[[[o fr1] m1] s']| | |] eqn:Eq; try discriminate end.
         assert (HM : MonoR (n :: stk) s s') by (eapply mono_q; eauto).
         assert (Hcs : exists ci0, get_info s cal = Some ci0).
         { destruct (get_info s cal) eqn:E0; [eauto|]. exfalso. eapply (mi_target _ _ _ _ _ _ _ HI); eauto. }
         destruct Hcs as [ci0 Hci0].
         assert (Kni : nkind cal <> KInput) by (intro K; rewrite K in Ek; discriminate).
-        match type of Eq with query_for_o p None tord bord f _ (CQuery n false ?pc []) _ _ _ = _ => set (pcal := pc) in * end.
+        match type of Eq with query_for_o p None tord bord pord f _ (CQuery n false ?pc []) _ _ _ = _ => set (pcal := pc) in * end.
         assert (Hnpq : MNPq (CQuery n false pcal []) cal s).
         { eapply (walk_site_np _ _ _ s n i cal ci0 ov otfc pd pcal HI Hi Eo Hci0 Kni).
           - destruct Hnp as [K|[_ K]]; auto.
